@@ -186,7 +186,7 @@ enum Step {
     Reload,
 }
 
-fn push_new(file: &mut A2lFile, kind: usize, name: &str) {
+pub fn push_new(file: &mut A2lFile, kind: usize, name: &str) {
     use a2lfile::*;
     let m = &mut file.project.module[0];
     let n = name.to_string();
